@@ -163,16 +163,16 @@ PROPS = {
     "C11": {"ready": True, "replay": mc_checks.replay, "partial": PARTIAL_D1,
             "suites": [mc("mc_cache_modes", dict(record=0.2, identical_msgs=0.5, depth=(2, 4)),
                           cross=[("dfs", "full"), ("dfs", "partial"), ("dfs", "disabled"), ("bfs", "full"), ("bfs", "disabled")],
-                          n_quick=200, extra_gen=mc_checks.gen_crash_merge)]},
+                          n_quick=200, extra_gen=mc_checks.gen_crash_merge), mc_checks.rand_cache_probe]},
     "C12": {"ready": True, "replay": mc_checks.replay,
             "suites": [mc("mc_fates", dict(p_fault=0.7, p_link=0.5, p_send=0.6, p_timer=0.1, nodes=(2, 3), procs=(2, 3), depth=(2, 4)),
                           refenum=True, nontrivial=lambda st: st["faults"] and st["multi_states"])]},
     "C13": {"ready": True, "partial": PARTIAL_D1, "replay": mc_checks.replay,
             "suites": [lambda v, tier, seed: store_suite.run(v, tier, seed, only_timers=True),
                        mc("mc_timer_order", dict(p_timer=0.7, p_send=0.15, p_once=0.4, same_timer_name=0.1, p_mode=0.4, depth=(3, 5),
-                                                 p_fault=0.05), refenum=True, nontrivial=lambda st: st["blocked"])]},
+                                                 p_fault=0.05, staged=0.3, locals=(2, 4)), refenum=True, nontrivial=lambda st: st["blocked"])]},
     "C14": {"ready": True, "replay": mc_checks.replay,
-            "suites": [mc("mc_crash", dict(p_crash=1.0, nodes=(2, 3), procs=(2, 4), p_link=0.4, staged=0.5), refenum=True,
+            "suites": [mc("mc_crash", dict(p_crash=1.0, nodes=(2, 3), procs=(2, 4), p_link=0.4, staged=0.5), refenum=True, extra_gen=mc_checks.gen_crash_then_heal,
                           nontrivial=lambda st: st["crash"] and st["multi_states"])]},
     "C16": {"ready": True, "replay": mc_checks.replay,
             "partial": "the union over start states is a theorem for the Disabled cache (runFromStates_disabled_concat) and for an exact shared cache with state-based predicates (runFromStates_ok_union); with path-dependent predicates and a shared cache the outcome depends on the hash order of equal-depth start states and is only observed",
